@@ -9,24 +9,26 @@ open MJ MJ.Val MJ.Cmp MJ.CmpKey MJ.CmpNum Std
 /-- keys strictly increasing -/
 def KeysSorted (ps : List (V × V)) : Prop := (ps.map (·.1)).Pairwise (fun a b => cmpV a b = .lt)
 
-theorem insertB_keys (k v : V) : ∀ (ps : List (V × V)) (p : V × V), p ∈ insertB k v ps → p = (k, v) ∨ p ∈ ps
-  | [], p, h => by simp [insertB] at h; exact Or.inl h
+theorem insertB_mem (k v : V) : ∀ (ps : List (V × V)) (p : V × V), p ∈ insertB k v ps →
+    p.1 = k ∨ ∃ q ∈ ps, q.1 = p.1
+  | [], p, h => by simp [insertB] at h; left; rw [h]
   | (k', v') :: ps, p, h => by
     unfold insertB at h
     split at h
     · rcases List.mem_cons.mp h with rfl | h
-      · exact Or.inl rfl
-      · exact Or.inr h
+      · left; rfl
+      · right; exact ⟨p, h, rfl⟩
     · rcases List.mem_cons.mp h with rfl | h
-      · exact Or.inl rfl
-      · exact Or.inr (List.mem_cons_of_mem _ h)
+      · right; exact ⟨(k', v'), List.mem_cons_self, rfl⟩
+      · right; exact ⟨p, List.mem_cons_of_mem _ h, rfl⟩
     · rcases List.mem_cons.mp h with rfl | h
-      · exact Or.inr List.mem_cons_self
-      · rcases insertB_keys k v ps p h with h | h
-        · exact Or.inl h
-        · exact Or.inr (List.mem_cons_of_mem _ h)
+      · right; exact ⟨(k', v'), List.mem_cons_self, rfl⟩
+      · rcases insertB_mem k v ps p h with h | ⟨q, hq, e⟩
+        · left; exact h
+        · right; exact ⟨q, List.mem_cons_of_mem _ hq, e⟩
 
-/-- inserting into a sorted entry list keeps it sorted (keys within range) -/
+/-- inserting into a sorted entry list keeps it sorted (keys within range): an `Equal` key is never
+    entered twice, the first spelling of the key stays -/
 theorem insertB_sorted (k v : V) (hk : AllNum N.WF k) : ∀ (ps : List (V × V)),
     (∀ p ∈ ps, AllNum N.WF p.1) → KeysSorted ps → KeysSorted (insertB k v ps)
   | [], _, _ => by simp [insertB, KeysSorted]
@@ -36,13 +38,6 @@ theorem insertB_sorted (k v : V) (hk : AllNum N.WF k) : ∀ (ps : List (V × V))
     unfold KeysSorted at hs ⊢
     simp only [List.map_cons, List.pairwise_cons] at hs
     obtain ⟨h1, h2⟩ := hs
-    have lt_trans : ∀ a b c : V, AllNum N.WF a → AllNum N.WF b → AllNum N.WF c →
-        cmpV a b = .lt → cmpV b c = .lt → cmpV a c = .lt := by
-      intro a b c ha hb hc hab hbc
-      rw [cmpV_eq_cmpK numSpec_wf _ _ ha hb] at hab
-      rw [cmpV_eq_cmpK numSpec_wf _ _ hb hc] at hbc
-      rw [cmpV_eq_cmpK numSpec_wf _ _ ha hc]
-      exact TransCmp.lt_trans hab hbc
     unfold insertB
     split
     · rename_i hlt
@@ -52,17 +47,13 @@ theorem insertB_sorted (k v : V) (hk : AllNum N.WF k) : ∀ (ps : List (V × V))
       rcases List.mem_cons.mp ha with rfl | ha
       · exact hlt
       · obtain ⟨p, hp, rfl⟩ := List.mem_map.mp ha
-        exact lt_trans k k' p.1 hk hk' (hr' p hp) hlt (h1 p.1 ha)
-    · rename_i heq
-      simp only [List.map_cons, List.pairwise_cons]
-      refine ⟨?_, h2⟩
-      intro a ha
-      obtain ⟨p, hp, rfl⟩ := List.mem_map.mp ha
-      have := h1 p.1 ha
-      rw [cmpV_eq_cmpK numSpec_wf _ _ hk hk'] at heq
-      rw [cmpV_eq_cmpK numSpec_wf _ _ hk' (hr' p hp)] at this
-      rw [cmpV_eq_cmpK numSpec_wf _ _ hk (hr' p hp)]
-      rw [TransCmp.congr_left heq]; exact this
+        have hpa := h1 p.1 ha
+        rw [cmpV_eq_cmpK numSpec_wf _ _ hk hk'] at hlt
+        rw [cmpV_eq_cmpK numSpec_wf _ _ hk' (hr' p hp)] at hpa
+        rw [cmpV_eq_cmpK numSpec_wf _ _ hk (hr' p hp)]
+        exact TransCmp.lt_trans hlt hpa
+    · simp only [List.map_cons, List.pairwise_cons]
+      exact ⟨h1, h2⟩
     · rename_i hgt
       have ih := insertB_sorted k v hk ps hr' h2
       unfold KeysSorted at ih
@@ -70,11 +61,11 @@ theorem insertB_sorted (k v : V) (hk : AllNum N.WF k) : ∀ (ps : List (V × V))
       refine ⟨?_, ih⟩
       intro a ha
       obtain ⟨p, hp, rfl⟩ := List.mem_map.mp ha
-      rcases insertB_keys k v ps p hp with rfl | hp'
-      · rw [cmpV_eq_cmpK numSpec_wf _ _ hk hk'] at hgt
-        rw [cmpV_eq_cmpK numSpec_wf _ _ hk' hk]
+      rcases insertB_mem k v ps p hp with e | ⟨q, hq, e⟩
+      · rw [e, cmpV_eq_cmpK numSpec_wf _ _ hk' hk]
+        rw [cmpV_eq_cmpK numSpec_wf _ _ hk hk'] at hgt
         exact OrientedCmp.lt_of_gt hgt
-      · exact h1 p.1 (List.mem_map.mpr ⟨p, hp', rfl⟩)
+      · rw [← e]; exact h1 q.1 (List.mem_map.mpr ⟨q, hq, rfl⟩)
 
 theorem foldl_insertB_sorted : ∀ (ps acc : List (V × V)),
     (∀ p ∈ ps, AllNum N.WF p.1) → (∀ p ∈ acc, AllNum N.WF p.1) → KeysSorted acc →
@@ -86,9 +77,9 @@ theorem foldl_insertB_sorted : ∀ (ps acc : List (V × V)),
     apply foldl_insertB_sorted ps
     · exact fun q hq => hp q (List.mem_cons_of_mem _ hq)
     · intro q hq
-      rcases insertB_keys p.1 p.2 acc q hq with rfl | hq
-      · exact hp p List.mem_cons_self
-      · exact ha q hq
+      rcases insertB_mem p.1 p.2 acc q hq with e | ⟨q', hq', e⟩
+      · rw [e]; exact hp p List.mem_cons_self
+      · rw [← e]; exact ha q' hq'
     · exact insertB_sorted p.1 p.2 (hp p List.mem_cons_self) acc ha hs
 
 /-- a map built from pairs (keys within range) holds its keys in strictly increasing order -/
